@@ -115,8 +115,19 @@ def run(res):
         near += [nm + "P", nm + "A", nm + "8", nm + "PA", nm[:-1]]
     rng.shuffle(near)
     texts += [".device %s\n.dseg\nv: .byte 1\n.cseg\n jmp v\n" % nm for nm in near[:40 if res.tier == "quick" else 400]]
+    clock = ["__SECOND__", "__MINUTE__", "__HOUR__", "__DAY__", "__MONTH__", "__YEAR__", "__CENTURY__", "__DATE__", "__TIME__", "__LINE__", "__FILE__", "__AVRASM_VERSION__"]
+    clock_texts = [" .dw %s\n" % nm for nm in clock] + [" ldi r16, low(%s)\n" % nm.lower() for nm in clock[:7]] + [".if %s\n nop\n.endif\n" % clock[0]]
+    texts += clock_texts
     texts = list(dict.fromkeys(texts))
     obs = P.correspond(res, vh, exe, texts, "programs (each also replayed in histories and threads)")
+    # the same source at different moments: a result must not depend on the clock
+    import time
+    first = {t: C.vh(vh, ["build-worker"], input=t.encode("utf-8").hex() + "\n").strip() for t in clock_texts}
+    time.sleep(1.2)
+    for t in clock_texts:
+        again = C.vh(vh, ["build-worker"], input=t.encode("utf-8").hex() + "\n").strip()
+        if again != first[t]:
+            P.fail(res, "builder::build_str at two moments", t, "the same result 1.2 s later: " + first[t][:80], again[:80], "clock")
     # fresh process per source - three of them: two processes enumerate a hash map in different orders
     fresh = {}
     for t in texts:
